@@ -18,7 +18,7 @@ ASAN = 'small_sse_cache_seq_asan'
 ALG_REASONS = {'result', 'frame', 'stray', 'crash', 'unexpected_die', 'die_touched', 'unknown_op'}
 
 
-BOUND_OPS = {'ple', 'pluq', '_ple', '_pluq', '_ple_naive', '_pluq_naive', '_ple_russian', '_pluq_russian', 'echelonize_m4ri', 'top_echelonize_m4ri', 'echelonize_pluq', 'find_pivot',
+BOUND_OPS = {'ple', 'pluq', '_ple', '_pluq', '_ple_naive', '_pluq_naive', '_ple_russian', '_pluq_russian', 'echelonize_m4ri', '_echelonize_m4ri', 'echelonize', 'top_echelonize_m4ri', 'echelonize_pluq', 'find_pivot',
              'solve_left', '_solve_left', 'kernel_left_pluq'}
 
 
